@@ -162,7 +162,7 @@ package httpcache
 //@   ensures result0 != nil && upstreamCalls == old(upstreamCalls) && result0 != old(stored.Data) ==> result0.StatusCode == 504 && statusIs(result0.Header, "BYPASS", false)   # name: synthesised-504-marked   props: C11
 //@   ensures result0 != nil && upstreamCalls != old(upstreamCalls) ==> (result0 == old(stored.Data) && (statusIs(result0.Header, "REVALIDATED", true) || statusIs(result0.Header, "STALE", true))) || (result0 != old(stored.Data) && (cstatus(result0.Header) == "MISS" || cstatus(result0.Header) == "BYPASS") && len(get(result0.Header, "X-Httpcache-Status")) == 1 && !has(result0.Header, "X-From-Cache"))   # name: validated-reply-marked   props: C11
 //@   ensures (result0 != nil) != (result1 != nil)                                        # name: result-shape   props: C10
-//@   ensures upstreamCalls != old(upstreamCalls) ==> validatedWithRealAge                # name: validation-judged-by-the-real-age   props: C11 C13 C02
+//@   ensures upstreamCalls != old(upstreamCalls) ==> validatedWithRealAge                # name: validation-judged-by-the-real-age   props: C11 C13 C02 C12
 //@   ensures indexRead == old(indexRead) && lastLoaded == old(lastLoaded)                # name: no-further-store-reads   props: C09
 //@   ensures goroutinesSpawned == old(goroutinesSpawned) || (goroutinesSpawned == old(goroutinesSpawned) + 1 && upstreamCalls == old(upstreamCalls) && result0 == old(stored.Data))   # name: at-most-one-background-revalidation-and-then-answers-at-once   props: C20
 //@   ensures tq == "" && !unqualNoCacheA(hs, vs) && !lastVerdictStale ==> served && statusIs(result0.Header, "HIT", true)   # name: fresh-matching-response-is-served-from-the-store   props: C09
